@@ -597,6 +597,11 @@ impl<'de, 't, 'a> de::Deserializer<'de> for &'a mut Deserializer<'de, 't> {
                 });
                 visitor.visit_map(MapDeserializer::new(self.state.clone(), iter))
             }
+            // `deserialize_any` sends every data value here, coming back would recurse forever
+            (ValueRef::Data(_), _) => Err(VmError::Message(format!(
+                "Unable to deserialize `{}`",
+                self.typ
+            ))),
             _ => self.deserialize_any(visitor),
         }
     }
